@@ -81,6 +81,13 @@ func (c08) Gen(seed uint64, run int, tier string) *core.Case {
 				bigBudget--
 			}
 			op.Seed = r.Uint64()
+		case x < 44:
+			// a re-upload that fails (wrong checksum / connection cut): the earlier part must stay
+			op.Kind = "partbad"
+			op.N = 1 + r.IntN(4)
+			op.Size = 1 + pickSize(r, 3000)
+			op.Seed = r.Uint64()
+			op.Bad = []string{"checksum", "cut"}[r.IntN(2)]
 		case x < 50:
 			op.Kind = "partcopy"
 			op.N = 1 + r.IntN(4)
@@ -321,6 +328,35 @@ func (c08) Exec(c *core.Case) (out *core.Outcome) {
 					viol("part-etag", "op %d: UploadPart answered ETag %s, the part's MD5 is %s", i, res.Resp.Get("ETag"), s3c.ETagOf(data))
 				}
 			}
+		case "partbad":
+			if u == nil || !u.Open {
+				continue
+			}
+			data := s3c.GenData(op.Seed, op.Size)
+			rq := s3c.UploadPart(bkt, key, u.ID, op.N, data)
+			co := envConn(op.Frag)
+			if op.Bad == "checksum" {
+				rq.Headers = append(rq.Headers, KV{K: "X-Amz-Checksum-Crc32", V: s3c.Checksum("crc32", append([]byte("x"), data...))})
+			}
+			sg := cl.Sign(rq)
+			if op.Bad == "cut" {
+				_, boff := sg.Wire()
+				co.CutAt = boff + len(sg.Body)/2
+			}
+			res := e.RoundTrip(cl.GW, sg, co)
+			if res.Resp.OK() {
+				// accepted after all (e.g. a 1-byte body cut at 0): then it counts as an upload
+				u.Parts[op.N] = &c08Part{Data: data, ETag: res.Resp.Get("ETag")}
+				if op.Bad == "checksum" {
+					viol("bad-part-accepted", "op %d: UploadPart with a wrong x-amz-checksum-crc32 was accepted", i)
+				}
+			} else {
+				o.Probe("failed_reupload")
+				if u.Parts[op.N] != nil {
+					o.Probe("failed_reupload_of_existing_part")
+				}
+			}
+			checkListParts(u, func() *s3c.Resp { return e.Root().Do(s3c.ListParts(bkt, key, u.ID)).Resp }, i)
 		case "partcopy":
 			if u == nil || !u.Open {
 				continue
